@@ -45,7 +45,7 @@ const (
 	TagBoth
 )
 
-func (t TagKind) Coq() string { return [...]string{"TNone", "TSecure", "TIgnore", "TBoth"}[t] }
+func (t TagKind) Coq() string     { return [...]string{"TNone", "TSecure", "TIgnore", "TBoth"}[t] }
 func (t TagKind) hasSecure() bool { return t == TagSecure || t == TagBoth }
 
 // concrete spellings of a tag set: getTags lower-cases, trims and splits on commas
@@ -57,10 +57,11 @@ var tagTexts = map[TagKind][]string{
 }
 
 type TField struct {
-	Name    string
-	Tag     TagKind
-	TagText string
-	Type    *TNode
+	Name       string
+	Tag        TagKind
+	TagText    string
+	Type       *TNode
+	Unexported bool // registry family only (values of such types are never filled): reflect.StructOf takes a PkgPath
 }
 
 type TNode struct {
@@ -100,6 +101,9 @@ func (n *TNode) RType() reflect.Type {
 		fs := make([]reflect.StructField, len(n.Fields))
 		for i, f := range n.Fields {
 			fs[i] = reflect.StructField{Name: f.Name, Type: f.Type.RType(), Tag: reflect.StructTag(f.TagText)}
+			if f.Unexported {
+				fs[i].PkgPath = "verifharness/cmd/c17"
+			}
 		}
 		n.rt = reflect.StructOf(fs)
 	case KPtr:
@@ -182,6 +186,7 @@ type TypeGen struct {
 	// registry mode: secret-looking names appear, sometimes untagged
 	PSecretName, PUntaggedSecretName float64
 	AllowArray                       bool
+	PUnexported                      float64 // registry family only
 }
 
 func (g *TypeGen) leaf() *TNode {
@@ -243,6 +248,14 @@ func (g *TypeGen) Struct(d int) *TNode {
 			}
 			if !used[f.Name] {
 				break
+			}
+		}
+		if g.PUnexported > 0 && g.r.Chance(g.PUnexported) {
+			// the registry's walk does not ask whether a field is exported: keyCache, tokenSource ... count too
+			f.Unexported = true
+			f.Name = strings.ToLower(f.Name[:1]) + f.Name[1:]
+			if used[f.Name] {
+				f.Name += "x"
 			}
 		}
 		used[f.Name] = true
